@@ -434,13 +434,18 @@ class Ctx:
         lean_lines = None
         if driver_bin:
             t = time.time()
+            drc, derr = 0, ""
             with open(ops) as fin, open(base + ".lean", "w") as fout:
-                p = subprocess.run([driver_bin] + list(driver_args), stdin=fin, stdout=fout,
-                                   stderr=subprocess.PIPE, text=True, timeout=timeout)
-            self.note("driver %s rc=%d (%.1fs, %d ops)" % (stream, p.returncode, time.time() - t, len(op_lines)))
+                try:
+                    p = subprocess.run([driver_bin] + list(driver_args), stdin=fin, stdout=fout,
+                                       stderr=subprocess.PIPE, text=True, timeout=timeout)
+                    drc, derr = p.returncode, p.stderr
+                except subprocess.TimeoutExpired:
+                    drc, derr = 124, "driver timed out after %ss" % timeout
+            self.note("driver %s rc=%d (%.1fs, %d ops)" % (stream, drc, time.time() - t, len(op_lines)))
             lean_lines = open(base + ".lean").read().splitlines()
-            if p.returncode != 0:
-                res["driver_error"] = p.stderr[-2000:]
+            if drc != 0:
+                res["driver_error"] = derr[-2000:] or "driver exited with %d" % drc
         # compare
         case_start = 0
         case_id = ""
